@@ -611,6 +611,53 @@ func (x *Exec) createLike(kind nt.Ftype3, dir Ref, name string, target string, e
 func (x *Exec) Create(dir Ref, name string) error {
 	return x.createLike(nt.NF3REG, dir, name, "", false)
 }
+
+// CreateWithSize: a CREATE that carries an initial size among its attributes.  A server may ignore initial
+// attributes (this one does) or honour them; either way the new file has size 0 or the size asked for, a size
+// beyond the announced maximum never comes into being (the request is refused, or the attribute ignored), and what
+// is beyond written data reads as zeros.
+func (x *Exec) CreateWithSize(dir Ref, name string, size uint64, guarded bool) error {
+	mode := nt.UNCHECKED
+	if guarded {
+		mode = nt.GUARDED
+	}
+	x.logf("CREATE %s %q mode=%d with initial size %d", dir.Desc, trunc(name, 20), mode, size)
+	legal := x.M.CanCreate(dir.N, name)
+	var res nt.CREATE3res
+	if err := x.call(func() {
+		res = x.S.API().NFSPROC3_CREATE(nt.CREATE3args{Where: nt.Diropargs3{Dir: dir.fh(), Name: nt.Filename3(name)},
+			How: nt.Createhow3{Mode: mode, Obj_attributes: nt.Sattr3{Size: nt.Set_size3{Set_it: true, Size: nt.Size3(size)}}}})
+	}); err != nil {
+		return err
+	}
+	if legal && size > x.M.Lim.MaxFileSize && res.Status != nt.NFS3_OK {
+		x.LastOK = false
+		x.Log[len(x.Log)-1] += fmt.Sprintf(" -> status %d (refused because of the size: fine)", res.Status)
+		return nil
+	}
+	if err := x.status(res.Status, legal, dir); err != nil {
+		return err
+	}
+	if !legal || !x.LastOK {
+		return nil
+	}
+	n := x.M.Create(dir.N, name, nt.NF3REG, "")
+	x.Mutations++
+	x.Unflushed = false
+	x.Budget -= 3
+	var ga nt.GETATTR3res
+	if err := x.call(func() { ga = x.S.API().NFSPROC3_GETATTR(nt.GETATTR3args{Object: res.Resok.Obj.Handle}) }); err != nil {
+		return err
+	}
+	got := uint64(ga.Resok.Obj_attributes.Size)
+	if ga.Status != nt.NFS3_OK || (got != 0 && got != size) || got > x.M.Lim.MaxFileSize {
+		return x.errf("CREATE with initial size %d succeeded; GETATTR of the new file: status %d, size %d (the announced maximum file size is %d)", size, ga.Status, got, x.M.Lim.MaxFileSize)
+	}
+	if got != 0 {
+		n.Truncate(got)
+	}
+	return x.learn(n, res.Resok.Obj, res.Resok.Obj_attributes, "create")
+}
 func (x *Exec) CreateExcl(dir Ref, name string) error {
 	return x.createLike(nt.NF3REG, dir, name, "", true)
 }
